@@ -151,11 +151,11 @@ Section Propagation.
       + (* XCaseM *)
         cbn [Ctx.plug_e Tc.afix astep r_expr]. unfold expr_body. here. here. now apply IHe.
       + (* XCaseB *)
-        cbn [Ctx.plug_e Tc.afix astep r_expr]. unfold expr_body. here. skip_pair. skip. here.
+        cbn [Ctx.plug_e Tc.afix astep r_expr]. unfold expr_body. here. skip_pair. skip. skip. here.
         apply foldM_notok. intros [[? ?] ?] s1. unfold case_branch. skip. skip. skip. here.
         apply block_notok. intros s2. now apply IHs.
       + (* XCaseF *)
-        cbn [Ctx.plug_e Tc.afix astep r_expr]. unfold expr_body. here. skip_pair. skip.
+        cbn [Ctx.plug_e Tc.afix astep r_expr]. unfold expr_body. here. skip_pair. skip. skip.
         apply bind_notok_r; intros [[? ?] ?] ?. here. here.
         apply block_notok. intros s2. now apply IHs.
       + (* XFun *)
